@@ -1,5 +1,7 @@
 """C13: Wakeup.tla (five two-thread scenarios, all interleavings) + Trace_Wakeup.tla, `sched` driver
 (two real threads under the cooperative scheduler at the cfg-gated yield points)."""
+import glob, hashlib, json, os
+from common import *
 from pipeline import run_pipeline
 
 TIERS = {
@@ -15,7 +17,71 @@ ASSUME = [
 ]
 
 
+def lockstep(d):
+    """Step-by-step conformance of the real threads with Wakeup.tla (Trace_WakeupSteps.tla): is the model that TLC checked a
+    model of this code, yield point by yield point?  The runs are grouped by the constants of Wakeup.tla they were made with.
+    A divergence is not a violation of C13 (the verdict on lost wake-ups is taken on where every run ends, by
+    Trace_Wakeup.tla); it says that the code between two yield points no longer does what the model's action does, so the
+    exhaustive result no longer carries over, and is reported as such."""
+    groups = {}
+    for sub in sorted(glob.glob(os.path.join(d, "*"))):
+        if not os.path.isdir(sub):
+            continue
+        specs = {}
+        for sf in glob.glob(os.path.join(sub, "specs_*.jsonl")):
+            for ln in open(sf):
+                r = json.loads(ln)
+                specs[r["run"]] = r["spec"]
+        for tf in sorted(glob.glob(os.path.join(sub, "trace_*.ndjson"))):
+            cur = None
+            for ln in open(tf):
+                e = json.loads(ln)
+                if e["ev"] == "Reset":
+                    sp = specs.get(e["run"])
+                    # the un-keyed non-bare stream goes through DataReader::take, whose yield point sits elsewhere than the
+                    # model's (grain mismatch): judged by its end states only
+                    if sp is None or sp["scenario"] in ("syncwait", "nkstream"):
+                        cur = None
+                        continue
+                    # the driver holds a "D" back like an "O" while a lower number is missing: say so to the model
+                    scr, missing = [], False
+                    for k in sp.get("script", []):
+                        if k == "H":
+                            missing = False; scr.append("H")
+                        elif k == "O" or missing:
+                            missing = True; scr.append("O")
+                        else:
+                            scr.append("D")
+                    key = json.dumps([sp["scenario"], sp["n"], sp.get("kinds", []), scr])
+                    cur = groups.setdefault(key, [])
+                    e["src"] = os.path.basename(sub)
+                if cur is not None:
+                    cur.append(e)
+    sd = clean_dir(os.path.join(d, "steps"))
+    files = []
+    for key, evs in sorted(groups.items()):
+        sc, n, kinds, script = json.loads(key)
+        f = os.path.join(sd, f"steps_{sc}_{hashlib.sha1(key.encode()).hexdigest()[:10]}.ndjson")
+        with open(f, "w") as fh:
+            fh.write(json.dumps({"ev": "Config", "scenario": sc, "N": n, "kinds": kinds, "script": script}) + "\n")
+            for e in evs:
+                fh.write(json.dumps(e) + "\n")
+        files.append(f)
+    res = validate_traces("Trace_WakeupSteps.tla", "Trace_WakeupSteps.cfg", files, "C13", jobs=8)
+    diverged = []
+    for r in res:
+        if r["stuck_line"] is not None:
+            try:
+                ev = open(r["file"]).read().splitlines()[r["stuck_line"] - 1]
+            except Exception:
+                ev = ""
+            diverged.append({"file": os.path.relpath(r["file"], ROOT), "line": r["stuck_line"], "event": ev[:200]})
+            log(f"MODEL-DIVERGENCE (not a verdict on C13): {os.path.relpath(r['file'], ROOT)} line {r['stuck_line']}: {ev[:160]}")
+    log(f"[lockstep] {len(res) - len(diverged)} of {len(res)} configurations conform to Wakeup.tla step by step ({sum(r['events'] for r in res)} events)")
+    return {"lockstep_with_model": {"configurations": len(res), "conforming": len(res) - len(diverged), "events": sum(r["events"] for r in res), "diverged": diverged[:10]}}
+
+
 def run(pid, tier, seed, replay=None):
     return run_pipeline(pid, tier, seed, replay, driver="sched", model="Wakeup.tla",
                         trace_module="Trace_Wakeup.tla", trace_cfg="Trace_Wakeup.cfg",
-                        tiers=TIERS, prefixes=(pid + "_",), assumptions=ASSUME)
+                        tiers=TIERS, prefixes=(pid + "_",), assumptions=ASSUME, extra_coverage=lockstep)
